@@ -71,9 +71,15 @@ SHAPES = {
     "H[a,Tuple[b,...]]": lambda S, a, b: S["H"][a, typing.Tuple[b, ...]],
     "Tuple[Any,a]": lambda S, a, b: typing.Tuple[typing.Any, a],
     "H": lambda S, a, b: S["H"],
+    # unions whose members share their origin, and Any as a parameter of a parametrised class
+    "Union[G[a,b],G[b,a]]": lambda S, a, b: typing.Union[S["G"][a, b], S["G"][b, a]],
+    "Union[G[a,a],G]": lambda S, a, b: typing.Union[S["G"][a, a], S["G"]],
+    "Union[H[a,b],G[b,b]]": lambda S, a, b: typing.Union[S["H"][a, b], S["G"][b, b]],
+    "G[Any,a]": lambda S, a, b: S["G"][typing.Any, a],
+    "G[a,Any]": lambda S, a, b: S["G"][a, typing.Any],
 }
 QUICK_SHAPES = ["a", "Tuple[a,b]", "Tuple[a,...]", "Tuple[a]", "Tuple", "Union[a,b]", "FrozenSet[a]", "FrozenSet", "Any", "G[a,b]", "H[a,b]", "G",
-                "Tuple[Any,a]", "Union[Tuple[a],FrozenSet[b]]", "Tuple[a,b,a]"]
+                "Tuple[Any,a]", "Union[Tuple[a],FrozenSet[b]]", "Tuple[a,b,a]", "Union[G[a,b],G[b,a]]", "G[Any,a]"]
 
 
 def formula(S, sub, sup):
